@@ -799,7 +799,7 @@ def f_panic_display(ctx, prog, pre_sites):
         inst = prog.get(k)
         for bi, t in mir.iter_calls(inst['body']):
             rk = t['f'].get('rkey') or ''
-            if "core::fmt::rt::Argument::<'_>::new_" in rk and '::<' in rk.split('new_', 1)[1]:
+            if "::fmt::rt::Argument::<'_>::new_" in rk and '::<' in rk.split('new_', 1)[1]:
                 kind, ty = rk.split('new_', 1)[1].split('::<', 1)
                 ty = ty[:-1].lstrip('&').strip()
                 if ty.startswith('mut '):
